@@ -61,6 +61,19 @@ func main() {
 
 	if cfg.Replay != "" {
 		for _, l := range hlib.ReplayLines(cfg.Replay) {
+			if ws := strings.Fields(l); len(ws) > 0 && (ws[0] == "sweep" || (len(ws) > 1 && ws[1] == "sweep")) {
+				if ws[0] != "sweep" {
+					ws = ws[1:]
+				}
+				if len(ws) >= 3 {
+					runSweep(o, map[string][]string{ws[1]: ws[2:]})
+				}
+				continue
+			}
+			if strings.Contains(l, "sweep-all") {
+				runSweep(o, sweepPairs(hlib.NewRand(cfg.Seed), 4))
+				continue
+			}
 			seed, jobs, err := parseTrial(l)
 			if err != nil {
 				o.Verdict("BADOP", err.Error())
@@ -81,6 +94,14 @@ func main() {
 	}
 
 	r := hlib.NewRand(cfg.Seed)
+	if len(cfg.Args) > 0 && cfg.Args[0] == "sweep" {
+		capPerFormat := 4
+		if cfg.Thorough() {
+			capPerFormat = 40
+		}
+		runSweep(o, sweepPairs(r, capPerFormat))
+		return
+	}
 	g := newGen(r)
 	nPool, nTrials := 12, 5
 	if cfg.Thorough() {
@@ -517,6 +538,8 @@ func worker(mode string, seed uint64) {
 	w := bufio.NewWriter(os.Stdout)
 	defer w.Flush()
 	switch mode {
+	case "sweepA", "sweepB", "sweepC":
+		sweepWorker(w, mode)
 	case "selftest":
 		var wg sync.WaitGroup
 		for g := 0; g < 2; g++ {
